@@ -11,8 +11,8 @@ const char* RULE =
     "time-dependent non-commuting HI(t), GammaRho(t) and the source computed by the reference algebra, (B) constant non-commuting HI and Gamma "
     "(exp(-iK tau) rho exp(+iK^dagger tau), K=HI-i Gamma, long-double Taylor reference), (D) time-dependent diagonal HI(t) with constant diagonal "
     "Gamma and source in closed form; scalars: manufactured target, decay with time-dependent rate, or constant rate + source; disabled terms "
-    "return 1e6-scale poison. Oracle: every node, matrix and scalar within 1e-5 (1+|state|) of the exact solution (adaptive abs=rel=1e-10, or a "
-    "fixed step count with truncation bound < 1e-8); Get_t = t_ini + dt; each enabled term was called for every (ix,index), only with indices in "
+    "return 1e6-scale poison. Oracle: every node, matrix and scalar within tol (1+|state|) of the exact solution, tol = 1e-7 for fixed stepping "
+    "(step count with truncation bound < 1e-8), 3e-6 adaptive rk* and 1e-5 msadams with abs=rel=1e-10 requested; Get_t = t_ini + dt; each enabled term was called for every (ix,index), only with indices in "
     "range and times inside the step interval; a GSL failure on a supported combination is a violation; in a quarter of the cases the fixed-step "
     "convergence order is checked instead (halving the step must reduce the error by about 2^order for rk2/rk4/rkf45/rkck/rk8pd). Non-trivial: some term enabled with "
     "numerics on and every enabled term's first-order effect (|term| x duration) above 1e-3; distinct by digest of consumed bytes.";
@@ -113,6 +113,9 @@ void run_case(ByteSource& s, CaseInfo& ci) {
   CHECK(fabs(S.Get_t() - t1d) <= (8 + (adaptive ? 0 : 2.0 * nsteps)) * 2.3e-16 * (fabs(p.t_ini) + dur) && S.Get_t_initial() == p.t_ini, "C04|clock", "Get_t=%.17g expected %.17g :: %s", S.Get_t(), t1d, desc.c_str());
   ld t1 = (ld)S.Get_t();
   unsigned eff = any_off ? 0 : mask;
+  // accuracy demanded per stepping mode (x (1+|state|)); calibrated on 96k thorough cases with >= 15x headroom over the worst
+  // global error observed (fixed 2.2e-9, adaptive rk* 1.3e-7, msadams 6.7e-7) - GSL controls only the local error
+  const ld TOLC = !adaptive ? 1e-7L : (stepper == 5 ? 1e-5L : 3e-6L);
   // exact solutions
   ld worst = 0;
   for (int ix = 0; ix < p.nx; ix++) {
@@ -121,14 +124,14 @@ void run_case(ByteSource& s, CaseInfo& ci) {
       Mat got = toM(S.rho(ix, ir));
       ld sc = 1 + maxabs(want);
       ld err = maxabs(got - want);
-      worst = std::max(worst, err / (1e-5L * sc));
-      CHECK(err <= 1e-5L * sc, fmt("C04|rho-differs-from-exact-solution|family=%d", p.family), "node %d matrix %d: max entry error %.3Lg (scale %.3Lg) :: %s", ix, ir, err, sc, desc.c_str());
+      worst = std::max(worst, err / (TOLC * sc));
+      CHECK(err <= TOLC * sc, fmt("C04|rho-differs-from-exact-solution|family=%d", p.family), "node %d matrix %d: max entry error %.3Lg (scale %.3Lg) :: %s", ix, ir, err, sc, desc.c_str());
     }
     for (int is = 0; is < p.ns; is++) {
       ld want = p.exact_scalar(ix, is, s0[ix][is], t0, t1, eff);
       ld err = fabsl((ld)S.scalar(ix, is) - want);
-      worst = std::max(worst, err / (1e-5L * (1 + fabsl(want))));
-      CHECK(err <= 1e-5L * (1 + fabsl(want)), "C04|scalar-differs-from-exact-solution", "node %d scalar %d: got %.17g exact %.17Lg :: %s", ix, is, S.scalar(ix, is), want, desc.c_str());
+      worst = std::max(worst, err / (TOLC * (1 + fabsl(want))));
+      CHECK(err <= TOLC * (1 + fabsl(want)), "C04|scalar-differs-from-exact-solution", "node %d scalar %d: got %.17g exact %.17Lg :: %s", ix, is, S.scalar(ix, is), want, desc.c_str());
     }
   }
   ci.ratio(fmt("%s-%s", STEPPER_NAMES[stepper], adaptive ? "adaptive" : "fixed"), (double)worst);
